@@ -30,7 +30,8 @@ MANIFEST = {
     "technique": "Lean 4 proof over generated tables (decide + induction over scripts) + translator validation by correspondence",
 }
 RULE = ("one case = one request: requester kind x URL form x default/caller header maps x outcome script (padded by "
-        "repeating its last outcome); every sequence up to the tier's depth over {success} + the 20 transport classes, each "
+        "repeating its last outcome); every sequence up to the tier's depth (quick 2, thorough 4 = the property's "
+        "quantifier) over {success} + the 20 transport classes, each "
         "raised at a rotating stage (request call / connect / read / decode), plus a random sample of longer scripts; "
         "compared: result class, isinstance facts, status, number of session.request calls, URL and headers of every call. "
         "non-trivial = a failure is mapped, retried or a zoned Host is rewritten; distinct = distinct canonical driver text")
@@ -281,6 +282,14 @@ def mk_out(rng, name: str, i: int, stage: Optional[str] = None) -> Dict[str, Any
     return out
 
 
+def _work(args):
+    from vk.core import activate_repo
+
+    activate_repo()
+    ctx, chunk = args
+    return [run_recipe(ctx, rec, cid) for cid, rec in chunk]
+
+
 def generate(ctx: Ctx) -> List[Case]:
     rng = ctx.rng
     search = getattr(ctx, "search", False)
@@ -317,6 +326,23 @@ def generate(ctx: Ctx) -> List[Case]:
             caller = rng.choice(caller_variants(u))
             kind = "session+sleep" if rng.random() < 0.2 else "session"
             add(kind, u, rng.choice(OWN_VARIANTS), caller, [mk_out(rng, nm, j) for j, nm in enumerate(seq)], f"e{n}_")
+    # thorough: ALL scripts of length 4 as well (the property's quantifier is 1..4), in worker processes
+    if ctx.thorough and not search:
+        import multiprocessing as mp
+
+        jobs = []
+        for seq in itertools.product(alpha, repeat=4):
+            u = URLS[rng.randrange(len(URLS))]
+            jobs.append((f"e4_{i}", {"kind": "session", "url": u, "own": None, "caller": rng.choice(caller_variants(u)),
+                                     "ops": [mk_out(rng, nm, j) for j, nm in enumerate(seq)]}))
+            i += 1
+        n = 12
+        lite = Ctx(ctx.prop, ctx.tier, ctx.seed, ctx.work, ctx.deadline)
+        with mp.get_context("fork").Pool(n) as pool:
+            parts = pool.map(_work, [(lite, jobs[k::n]) for k in range(n)])
+        by_id = {c.cid: c for part in parts for c in part}
+        cases.extend(by_id[cid] for cid, _ in jobs)
+        EXHAUSTIVE["thorough"] = False  # exhaustive over classes, the raising stage per outcome is drawn at random
     # sample of longer scripts (length 3..4 quick, 4..6 thorough), biased to connection-level prefixes
     conn = ["TimeoutError", "ClientConnectionError", "ClientOSError", "ServerDisconnectedError", "ServerTimeoutError",
             "ClientConnectorError", "ServerConnectionError"]
